@@ -306,3 +306,12 @@ func VerifUnit(fn string, source graph.Source, layers map[string]int) (before, a
 	after = x.snap("after", 0, G)
 	return before, after
 }
+
+// VerifCurveContained runs the spline fitter's containment test on an arbitrary cubic
+func VerifCurveContained(ctrl [4][2]float64, rs []VerifRect) bool {
+	var c [4]geom.P
+	for i, p := range ctrl {
+		c[i] = geom.P{X: p[0], Y: p[1]}
+	}
+	return geom.VerifCurveContained(c, verifRects(rs))
+}
